@@ -16,6 +16,7 @@ EXPLANATION = (
     "_remove_empty_* helpers do not mutate the solution they are given and getters return the cached solution.  "
     " (R5) `threads` is set per model but HiGHS sizes one scheduler per process: optimize() resets the scheduler when the requested count differs from the one last used; the class attribute recording that count is a tabled exception of R3 whose premise (read only in the test guarding the reset) is checked. "
     "Equality of results across histories as such is NOT decided - only that these channels are closed."
+    ' (R1, round 3) `self.a += value` counts as an in-place extension of whatever self.a aliases when self.a is assigned a container in the same function.'
 )
 DECIDED = ["caller-owned graphs, option dicts, constraint and ignore lists are never written (alias + effect analysis)",
            "shared mutable defaults are never written", "no state shared between models through class attributes / globals"]
